@@ -224,7 +224,6 @@ class Model:
         except Exception as exc:        # noqa: BLE001 - that is the rule
             del self.out[mark:]
             self.handled += 1
-            prev = self.error
             self._keep.append(exc)
             self.error = ErrorInfoModel(exc)
             if self.handler is not None:
@@ -253,7 +252,7 @@ class Model:
             self.emit_value(self.ev(fe), mode or "text")
             if tagged:
                 self.out.append("</" + n["tag"] + ">")
-            self.error = prev if False else self.error
+            # (``error`` stays bound after the fallback - observation O3)
 
     def element(self, n: dict, switch_state, via_use: bool = False) -> None:
         if n.get("define_macro") and not via_use:
